@@ -208,7 +208,8 @@ def one_run(run, idx, flow, fn, prev_cfg, new_cfg, link, stale, crash_at, torn, 
 
     sc = Scenario(run, idx)
     try:
-        prev_text = texts[prev_cfg] if prev_cfg else None
+        # "cN~": the previous contents as somebody's editor left them, without the final newline
+        prev_text = (texts[prev_cfg[:-1]].rstrip("\n") if prev_cfg.endswith("~") else texts[prev_cfg]) if prev_cfg else None
         sc.setup(prev_text, link, stale)
         before = stat_sig(sc.dest)
         ev = [
@@ -327,6 +328,8 @@ def main(run):
             run.report("%s does not produce its output into a fresh path: %s" % (name, err), {"writer": name, "error": err}, {"Completed", name})
             continue
         prevs = [None, "c0", "c1", "c3"] if tier == "quick" else [None] + cfgs
+        if flow != "gen":
+            prevs = prevs + (["c1~"] if tier == "quick" else ["c0~", "c1~", "c3~"])
         news = ["c0", "c2", "c3"] if tier == "quick" else cfgs
         for prev in prevs:
             for new in news:
